@@ -38,18 +38,47 @@ ExpectedOf(o) ==
     [] OTHER -> <<>>
 Expected(ops) == Flatten([k \in DOMAIN ops |-> ExpectedOf(ops[k])])
 
-\* calls on one instance take effect in the order they were issued; with every call awaited, so do all calls of all
-\* instances - except destroy(), which returns nothing to await: its destroy_store is ordered only within its instance
+\* What index.js guarantees about order, as observed and then read off its code:
+\*  - the set-up methods of one instance (constructor, addRecords, setLimit, destroy) form a promise chain: their glue calls
+\*    happen in the order the methods were called, awaited or not;
+\*  - search() is not a link of that chain: it waits for the chain as it stood when it was called and then makes its three
+\*    glue calls in one go - never before a set-up method called before it, but possibly after ones called later when the
+\*    caller did not await the search (the first version of this specification claimed plain per-instance order; a trace
+\*    of the real class with some calls awaited and others not refuted it);
+\*  - with every call awaited all calls of all instances happen in program order, except destroy(), which returns nothing
+\*    to await.
+IsSearchCall(c) == c.name \in {"run_search", "get_result_ids", "get_result_titles"}
 NoDestroyCalls(cs) == SelectSeq(cs, LAMBDA c : c.name # "destroy_store")
 NoDestroyOps(os)   == SelectSeq(os, LAMBDA o : o.op # "destroy")
+InstCalls(k)  == SelectSeq(E.calls, LAMBDA c : c.id = k)
+InstOps(k)    == SelectSeq(E.script, LAMBDA o : o.inst = NewOps[k].inst)
+StrictOrder(k) == InstCalls(k) = Expected(InstOps(k))
+Structure(k) ==          \* set-up calls in order; every search is its three calls in one go, with its own query
+  LET C  == InstCalls(k)  O == InstOps(k)
+      runs == SelectSeq([i \in DOMAIN C |-> i], LAMBDA i : C[i].name = "run_search")
+      sops == SelectSeq([i \in DOMAIN O |-> i], LAMBDA i : O[i].op = "search")
+  IN /\ SelectSeq(C, LAMBDA c : ~IsSearchCall(c)) = Expected(SelectSeq(O, LAMBDA o : o.op # "search"))
+     /\ Len(runs) = Len(sops)
+     /\ \A m \in DOMAIN runs :
+           /\ runs[m] + 2 <= Len(C)
+           /\ C[runs[m] + 1].name = "get_result_ids" /\ C[runs[m] + 2].name = "get_result_titles"
+           /\ C[runs[m]].texts = <<O[sops[m]].q>>
+SearchNotEarly(k) ==     \* JsQueue.tla, Fifo: no search before a set-up call that was issued before it
+  LET C  == InstCalls(k)  O == InstOps(k)
+      runs == SelectSeq([i \in DOMAIN C |-> i], LAMBDA i : C[i].name = "run_search")
+      sops == SelectSeq([i \in DOMAIN O |-> i], LAMBDA i : O[i].op = "search")
+      setupsBefore(pos) == Len(SelectSeq(SubSeq(C, 1, pos - 1), LAMBDA c : ~IsSearchCall(c)))
+      owedBefore(j)     == Len(Expected(SelectSeq(SubSeq(O, 1, j - 1), LAMBDA o : o.op # "search")))
+  IN \A m \in DOMAIN runs : m \in DOMAIN sops => setupsBefore(runs[m]) >= owedBefore(sops[m])
+AllStrict == \A k \in DOMAIN NewOps : StrictOrder(k)
 CallFindings ==
   Flatten([k \in DOMAIN NewOps |->
-     LET i == NewOps[k].inst IN
-     Check(SelectSeq(E.calls, LAMBDA c : c.id = k) = Expected(SelectSeq(E.script, LAMBDA o : o.inst = i)),
-           "BIND-calls", "calls of one instance are not in the order its methods were called")])
+     Check(Structure(k), "BIND-calls", "set-up calls of one instance out of order, or a search that is not its three calls in one go")
+     \o (IF Structure(k) THEN Check(SearchNotEarly(k), "BIND-search-early", "a search ran before a set-up call that was issued before it") ELSE <<>>)])
   \o (IF E.mode = "await"
       THEN Check(NoDestroyCalls(E.calls) = Expected(NoDestroyOps(E.script)), "BIND-calls",
                  "awaited methods of different instances did not take effect in program order")
+         \o Check(AllStrict, "BIND-calls", "awaited methods of one instance did not take effect in program order")
       ELSE <<>>)
 
 \* the searches of the script, in order, with the ids the instance knew when the search was issued
@@ -66,7 +95,8 @@ WireFindings ==
     \o Check(\A i \in DOMAIN g.results : 0 \notin SeqRange(g.results[i].title), "C02", "a returned title contains NUL")])
 
 DecodeFindings ==
-  IF Len(E.outs) # Len(E.glue) \/ Len(E.glue) # Cardinality(SearchIx) THEN <<Finding(l, "TOOL", "searches, glue answers and outcomes do not line up")>>
+  IF ~AllStrict THEN <<>>
+  ELSE IF Len(E.outs) # Len(E.glue) \/ Len(E.glue) # Cardinality(SearchIx) THEN <<Finding(l, "TOOL", "searches, glue answers and outcomes do not line up")>>
   ELSE Flatten([n \in DOMAIN E.glue |->
     LET g == E.glue[n]  o == E.outs[n]
         want == JsDecode(KnownAt(NthSearch(n)), g.wire_ids, g.wire_titles)
@@ -86,9 +116,10 @@ TvNext ==
        THEN /\ findings' = findings \o <<Finding(l, "BIND-panic", "a pass did not complete for this case")>>
             /\ cnt' = cnt
        ELSE /\ findings' = findings \o WireFindings \o CallFindings \o DecodeFindings
-            /\ cnt' = [cases |-> cnt.cases + 1, searches |-> cnt.searches + Len(E.glue), calls |-> cnt.calls + Len(E.calls)]
+            /\ cnt' = [cases |-> cnt.cases + 1, searches |-> cnt.searches + Len(E.glue), calls |-> cnt.calls + Len(E.calls),
+                         reordered |-> cnt.reordered + (IF AllStrict THEN 0 ELSE 1)]
 
-TvInit == l = 1 /\ findings = <<>> /\ cnt = [cases |-> 0, searches |-> 0, calls |-> 0]
+TvInit == l = 1 /\ findings = <<>> /\ cnt = [cases |-> 0, searches |-> 0, calls |-> 0, reordered |-> 0]
 TvSpec == TvInit /\ [][TvNext]_vars
 Report == (l = NRec + 1) => PrintT(<<"TV-RESULT", ToJson([events |-> NRec, viol |-> findings, drift |-> <<>>, cnt |-> cnt])>>)
 Consumed == TLCGet("stats").diameter - 1 = NRec
